@@ -254,12 +254,30 @@ func execStep(pool []*core.StructSpec, st c07Step) (stepResult, bool, *Failure) 
 			return res, false, lf
 		}
 		res.Dest = hashStr(core.CanonStruct(s, lifted))
+		c07LastDest, c07LastBound, c07LastSpec = dest, b, s
 		if os.Getenv("VERIF_C07_DEBUG") != "" {
 			fmt.Println("C07DEST", core.CanonStruct(s, lifted))
 		}
 		return res, verdict.Kind == core.VOK, nil
 	}
 	return res, true, nil
+}
+
+// the destination of the decode step executed last (kept by runC07: what a call has stored, also
+// a failing one, must read the same after every later call)
+var (
+	c07LastDest  reflect.Value
+	c07LastBound *core.Bound
+	c07LastSpec  *core.StructSpec
+)
+
+type c07Kept struct {
+	dest reflect.Value
+	b    *core.Bound
+	s    *core.StructSpec
+	hash string
+	step int
+	ok   bool
 }
 
 // freshResult runs one step first in a brand-new process.
@@ -301,6 +319,8 @@ func runC07(w *worker) func(c c07Case) *Failure {
 		failedBefore := false
 		interesting := false
 		freshRuns := 0
+		var kept []c07Kept
+		pool := c.Pool
 		for i, st := range c.Steps {
 			res, ok, f := execStep(c.Pool, st)
 			if f != nil {
@@ -309,6 +329,24 @@ func runC07(w *worker) func(c c07Case) *Failure {
 			}
 			if failedBefore && ok {
 				interesting = true
+			}
+			// earlier destinations, of successful and of failed decodes, still read as they did
+			for _, k := range kept {
+				var h string
+				if lf := safely("reading an earlier destination", func() { h = hashStr(core.CanonStruct(k.s, k.b.Lift(k.dest.Elem()))) }); lf != nil {
+					lf.Msg = fmt.Sprintf("step %d: destination of step %d: %s", i, k.step, lf.Msg)
+					return lf
+				}
+				if h != k.hash {
+					return failf("earlier-destination-changed", "after step %d (%s on pool type %d) the destination of the decode of step %d (which had %s) no longer reads as it did right after that call", i, st.Op, st.T, k.step, map[bool]string{true: "succeeded", false: "failed"}[k.ok])
+				}
+			}
+			if (st.Op == "decode" || st.Op == "decodebad") && c07LastDest.IsValid() && !pool[st.T].AnyNoCopy() {
+				kept = append(kept, c07Kept{c07LastDest, c07LastBound, c07LastSpec, res.Dest, i, ok})
+				if len(kept) > 5 {
+					kept = kept[1:]
+				}
+				c07LastDest = reflect.Value{}
 			}
 			if !ok {
 				failedBefore = true
